@@ -12,8 +12,8 @@ driver ever builds; `bytesToChars` of any `List UInt8` satisfies it).
 set_option maxRecDepth 100000
 namespace Verif.Props.C18
 open Verif Verif.Model.DataURI Verif.Proofs.DataURI
-open Verif.Spec.Rfc2397 (pctDecode rfcParse mtNorm trigPlus trigParamNoType trigB64Item trigTextPlainPrefix
-  trigDataURI holdsDataURI validlyEncoded specMediatypeOK specMediatype quotesClosed trigQuoteShift trigBackslash)
+open Verif.Spec.Rfc2397 (pctDecode rfcParse mtNorm trigPlus trigParamNoType trigB64Item
+  trigDataURI holdsDataURI validlyEncoded specMediatypeOK specMediatype quotesClosed)
 
 /-! ## facts about the regenerated tables (re-checked by the kernel whenever the dependency changes) -/
 
@@ -130,15 +130,15 @@ def dataURI_preserves_full : Prop :=
       (dataURI sub u = u ∨
        ∃ mt', rfcParse (dataURI sub u) = some (mt', (sub mtd d).getD d) ∧ mtNorm mt' = mtNorm mt)
 
-/-- proved outside four narrow syntactic triggers (the known findings K-C18-1 … K-C18-4) -/
+/-- proved outside three narrow syntactic triggers (the open known findings K-C18-1 … K-C18-3, all in the
+    dependency `parse/v2`) -/
 theorem dataURI_preserves_partial (sub : List Char → List Char → Option (List Char)) (u mt d : List Char)
     (hu : AllBytes u) (hsub : SubBytes sub) (hr : rfcParse u = some (mt, d))
-    (g1 : trigPlus u = false) (g2 : trigParamNoType u = false) (g3 : trigB64Item u = false)
-    (g4 : trigTextPlainPrefix u = false) :
+    (g1 : trigPlus u = false) (g2 : trigParamNoType u = false) (g3 : trigB64Item u = false) :
     ∃ mtd, mtNorm mtd = mtNorm mt ∧
       (dataURI sub u = u ∨
        ∃ mt', rfcParse (dataURI sub u) = some (mt', (sub mtd d).getD d) ∧ mtNorm mt' = mtNorm mt) := by
-  obtain ⟨mtd, _, h2, h3⟩ := preserves_core sub u mt d hu hsub hr g1 g2 g3 g4
+  obtain ⟨mtd, _, h2, h3⟩ := preserves_core sub u mt d hu hsub hr g1 g2 g3
   exact ⟨mtd, h2, h3⟩
 
 /-- the same in the form the harness evaluates on the implementation's output (`spec.c18.holds`) -/
@@ -147,12 +147,12 @@ theorem dataURI_holds_partial (sub : List Char → List Char → Option (List Ch
     ∃ mtd, holdsDataURI u (dataURI sub u)
       ((sub mtd ((rfcParse u).map (·.2)).get!).getD ((rfcParse u).map (·.2)).get!) = true := by
   simp only [trigDataURI, Bool.or_eq_false_iff] at g
-  obtain ⟨⟨⟨g1, g2⟩, g3⟩, g4⟩ := g
+  obtain ⟨⟨g1, g2⟩, g3⟩ := g
   cases hr : rfcParse u with
   | none => exact ⟨[], by simp [holdsDataURI, hr]⟩
   | some md =>
     obtain ⟨mt, d⟩ := md
-    obtain ⟨mtd, _, h | ⟨mt', h1, h2⟩⟩ := dataURI_preserves_partial sub u mt d hu hsub hr g1 g2 g3 g4
+    obtain ⟨mtd, _, h | ⟨mt', h1, h2⟩⟩ := dataURI_preserves_partial sub u mt d hu hsub hr g1 g2 g3
     · exact ⟨mtd, by simp [holdsDataURI, hr, h]⟩
     · refine ⟨mtd, ?_⟩
       simp only [holdsDataURI, hr, Option.map_some, Option.get!_some, h1, h2]
@@ -164,8 +164,8 @@ theorem parse_agrees (u mt d : List Char) (hu : AllBytes u) (hr : rfcParse u = s
     (g : trigDataURI u = false) :
     ∃ mtd, parseDataURI u = some (mtd, d) ∧ mtNorm mtd = mtNorm mt := by
   simp only [trigDataURI, Bool.or_eq_false_iff] at g
-  obtain ⟨⟨⟨g1, g2⟩, g3⟩, g4⟩ := g
-  obtain ⟨mtd, h1, h2, _⟩ := preserves_core (fun _ _ => none) u mt d hu (by intro _ _ _ h; cases h) hr g1 g2 g3 g4
+  obtain ⟨⟨g1, g2⟩, g3⟩ := g
+  obtain ⟨mtd, h1, h2, _⟩ := preserves_core (fun _ _ => none) u mt d hu (by intro _ _ _ h; cases h) hr g1 g2 g3
   exact ⟨mtd, h1, h2⟩
 
 example : rfcParse "data:;base64,QU\nJD".toList = none ∧
@@ -182,7 +182,7 @@ example : AllBytes "data:Text/HTML; charset=us-ascii ;a=b,%3Cp%3e x".toList ∧
 example : trigDataURI "data:image/png;base64,iVBORw0KGgo=".toList = false ∧
     (rfcParse "data:image/png;base64,iVBORw0KGgo=".toList).isSome = true := by decide
 
-/-- the full statement is false — four independent witnesses, each the replay input of a known finding -/
+/-- the full statement is false — three independent witnesses, each the replay input of an open known finding -/
 theorem dataURI_preserves_counterexample_plus : ¬ dataURI_preserves_full := fun h => by
   obtain ⟨mtd, _, h1 | ⟨mt', h2, _⟩⟩ :=
     h (fun _ _ => none) "data:,a+b".toList [] "a+b".toList (by decide) (by intro _ _ _ e; cases e) (by decide)
@@ -214,21 +214,15 @@ theorem dataURI_preserves_counterexample_b64Item : ¬ dataURI_preserves_full := 
     simp only [Option.getD_none, Option.some.injEq, Prod.mk.injEq] at h2
     exact absurd h2.2 (by decide)
 
-theorem dataURI_preserves_counterexample_textPlainPrefix : ¬ dataURI_preserves_full := fun h => by
-  obtain ⟨mtd, _, h1 | ⟨mt', h2, h3⟩⟩ :=
-    h (fun _ _ => none) "data:text/plainx,abc".toList "text/plainx".toList "abc".toList (by decide)
-      (by intro _ _ _ e; cases e) (by decide)
-  · revert h1; decide
-  · have e : rfcParse (dataURI (fun _ _ => none) "data:text/plainx,abc".toList) = some ("x".toList, "abc".toList) := by
-      decide
-    rw [e] at h2
-    simp only [Option.getD_none, Option.some.injEq, Prod.mk.injEq] at h2
-    rw [← h2.1] at h3
-    revert h3; decide
+/-- regression (fixed finding K-C18-4): a type that merely starts with `text/plain` is kept -/
+example : dataURI (fun _ _ => none) "data:text/plainx,abc".toList = "data:text/plainx,abc".toList ∧
+    dataURI (fun _ _ => none) "data:text/plain x;a=b,abc".toList = "data:text/plain x;a=b,abc".toList ∧
+    dataURI (fun _ _ => none) "data:TEXT/plain;a=b,abc".toList = "data:;a=b,abc".toList ∧
+    trigDataURI "data:text/plainx,abc".toList = false := by decide
 
 /-- each witness falls under exactly its own trigger -/
 example : trigPlus "data:,a+b".toList = true ∧ trigParamNoType "data:;charset=utf-8,x".toList = true ∧
-    trigB64Item "data:x/y;a=base64,QUJD".toList = true ∧ trigTextPlainPrefix "data:text/plainx,abc".toList = true := by
+    trigB64Item "data:x/y;a=base64,QUJD".toList = true := by
   decide
 
 /-! ## (f) the shorter of the two encodings is chosen -/
@@ -344,41 +338,24 @@ example : NonExpanding (fun _ d => some (d.filter (· ≠ ' '))) := by
 
 /-! ## (g) the media type helper -/
 
-/-- full statement: "only lowercases and strips whitespace outside quoted strings" — for every media type string
-    whose quoted strings are closed the result is the input with the whitespace outside quoted strings deleted
-    and each letter outside quoted strings kept or lower-cased (relational: runs of 1024 bytes or more may stay as
-    they are); quoted strings, incl. backslash escapes (RFC 2045 `quoted-pair`), are copied -/
-def mediatype_spec_full : Prop :=
-  ∀ b : List Char, quotesClosed b = true → specMediatypeOK 0 b (mediatype b) = true
+/-- **"only lowercases and strips whitespace outside quoted strings"**, full strength: for every media type
+    string whose quoted strings are closed the result is the input with the whitespace outside quoted strings
+    deleted and each letter outside quoted strings kept or lower-cased (relational: runs of 1024 bytes or more may
+    stay as they are); quoted strings, incl. backslash escapes (RFC 2045 `quoted-pair`), are copied.
+    Proof: loop invariant over the in-place compaction. -/
+theorem mediatype_spec (b : List Char) (hc : quotesClosed b = true) : specMediatypeOK 0 b (mediatype b) = true :=
+  Verif.Proofs.Mediatype.mediatype_ok b hc
 
-/-- proved outside the triggers of the two known defects of `common.go` (K-C18-5, K-C18-6) -/
-theorem mediatype_spec_partial (b : List Char) (hc : quotesClosed b = true) (g1 : trigQuoteShift b = false)
-    (g2 : trigBackslash b = false) : specMediatypeOK 0 b (mediatype b) = true :=
-  Verif.Proofs.Mediatype.mediatype_ok b hc g1 g2
+/-- regression (fixed findings K-C18-5, K-C18-6) -/
+example : mediatype "a  ;x=\"AB\";y=\"C\"".toList = "a;x=\"AB\";y=\"C\"".toList ∧
+    mediatype "X=\"a\\\"B C\" ; Y=z".toList = "x=\"a\\\"B C\";y=z".toList ∧
+    quotesClosed "X=\"a\\\"B C\" ; Y=z".toList = true := by decide
 
-/-- bytes inside a quoted string are lower-cased: `a  ;x="AB";y="C"` ↦ `a;x="Ab";y="C"` -/
-theorem mediatype_spec_counterexample_quoteShift : ¬ mediatype_spec_full := fun h =>
-  absurd (h "a  ;x=\"AB\";y=\"C\"".toList (by decide)) (by decide)
-
-/-- a backslash-escaped quote ends the string: `x="a\"B C"` ↦ `x="a\"bc"` -/
-theorem mediatype_spec_counterexample_backslash : ¬ mediatype_spec_full := fun h =>
-  absurd (h "x=\"a\\\"B C\"".toList (by decide)) (by decide)
-
-example : mediatype "a  ;x=\"AB\";y=\"C\"".toList = "a;x=\"Ab\";y=\"C\"".toList ∧
-    trigQuoteShift "a  ;x=\"AB\";y=\"C\"".toList = true ∧ trigBackslash "x=\"a\\\"B C\"".toList = true := by decide
-
-/-- non-vacuity: the suite's own case with a quoted parameter satisfies the hypotheses, and the result is the
-    reference result -/
+/-- non-vacuity: the suite's own case with a quoted parameter; the result is the reference result -/
 example : quotesClosed "text/html; charset=UTF-8 ; param = \" ; \"".toList = true ∧
-    trigQuoteShift "text/html; charset=UTF-8 ; param = \" ; \"".toList = false ∧
-    trigBackslash "text/html; charset=UTF-8 ; param = \" ; \"".toList = false ∧
     mediatype "text/html; charset=UTF-8 ; param = \" ; \"".toList = "text/html;charset=utf-8;param=\" ; \"".toList ∧
     specMediatype "text/html; charset=UTF-8 ; param = \" ; \"".toList = "text/html;charset=utf-8;param=\" ; \"".toList := by
   decide
-
-/-- two strings separated by whitespace are fine -/
-example : trigQuoteShift "a ;x=\"AB\" ;y=\"C\"".toList = false ∧
-    mediatype "A ;x=\"AB\" ;Y=\"C\"".toList = "a;x=\"AB\";y=\"C\"".toList := by decide
 
 /-- never longer than its input -/
 theorem mediatype_len (b : List Char) : (mediatype b).length ≤ b.length :=
